@@ -91,8 +91,10 @@ class CFG:
         suppressing: Callable[[ast.withitem], bool] | None = None,
         may_raise: Callable[[ast.AST], bool] = default_may_raise,
         body: list[ast.stmt] | None = None,
+        local_exc_only: bool = False,
     ):
         self.fn = fn
+        self.local_exc_only = local_exc_only
         self.nodes: list[N] = []
         self.suppressing = suppressing or (lambda item: False)
         self.may_raise = may_raise
@@ -179,6 +181,8 @@ class CFG:
     def _add_exc(self, n: N):
         if n.ast is not None and self.may_raise(_raise_scope(n)):
             for t in self._exc_targets(self._frames):
+                if self.local_exc_only and t is self.raise_exit:
+                    continue  # only exceptions that are caught inside the function are modelled
                 self._connect([(n, "exc")], t)
 
     def _block(self, stmts: Iterable[ast.stmt], frontier):
